@@ -256,6 +256,9 @@ fn run_op(op: &str, toks: &[&str]) -> (String, Vec<String>) {
                     let err = (i128::from(r) << 32) - exact;
                     let sat_ok = (r == i64::MAX && exact > 0) || (r == i64::MIN && exact < 0);
                     chk(err.abs() <= (1 << 31) || sat_ok, "dfix-mul-not-nearest-or-wraps");
+                    if err.abs() == (1 << 31) && !sat_ok {
+                        chk(r & 1 == 0, "dfix-mul-tie-not-to-even");
+                    }
                     chk((b * a).raw() == r, "dfix-mul-not-commutative");
                 }
                 _ => {
@@ -266,6 +269,9 @@ fn run_op(op: &str, toks: &[&str]) -> (String, Vec<String>) {
                         let pos = (x[0] < 0) == (x[1] < 0);
                         let sat_ok = (r == i64::MAX && pos) || (r == i64::MIN && !pos);
                         chk(2 * err.abs() <= bi.abs() || sat_ok, "dfix-div-not-nearest-or-wraps");
+                        if 2 * err.abs() == bi.abs() && !sat_ok {
+                            chk(r & 1 == 0, "dfix-div-tie-not-to-even");
+                        }
                     } else {
                         let want = if x[0] == 0 { 0 } else if x[0] < 0 { i64::MIN } else { i64::MAX };
                         chk(r == want, "dfix-div-by-zero-policy");
